@@ -10,11 +10,12 @@ NOTE = ("Trusted: z3; the shim models of numpy/pandas/h5py operations on symboli
 
 CLAIMED = {
     "C01": ("For every sorted record stream within the bounds (<=3 chromosomes, n<=4 bins, K<=4 records, every chunking incl. empty chunks, both modes, "
-            "iterable/DataFrame/dict/dense-array input) the real create_cooler -> Cooler.pixels/matrix/info source returns exactly the records and the "
-            "(completed) matrix given; metadata documents are compared concretely.", "4/C01"),
+            "iterable/DataFrame/dict/dense-array input; one-piece tables in any row order; ids in int8/int64; loader reused) the real create_cooler -> "
+            "Cooler.pixels/matrix/info source returns exactly the records and the (completed) matrix given; metadata documents are compared concretely.", "4/C01"),
     "C02": ("The schema predicate (column lengths = nnz, strict order, range, triangularity, both offset indexes = run-length indexes, nbins/nchroms/sum/"
             "bin-type/bin-size consistent) is proved on the raw store after ordered creation from every stream within the bounds, and the index builder is "
-            "decided for every block size with its 1e6 block made symbolic.", "4/C02"),
+            "decided for every block size with its 1e6 block made symbolic; integer value columns handed over in another integer type are stored exactly or "
+            "refused over the whole range of that type; ensure_sorted repairs any in-chunk order under every flag combination.", "4/C02"),
     "C04": ("Cooler.extent/offset, bins()/pixels()/matrix() fetch, GenomeSegmentation.fetch and bedslice are executed on bin tables with symbolic widths "
             "(fixed-width path taken through the real get_binsize; variable path) and symbolic (chrom, start, end): selected bins == overlapping bins of that "
             "chromosome; pixel and two-region matrix fetch == index queries on the extents.", "4/C04"),
@@ -22,31 +23,39 @@ CLAIMED = {
             "over bin tables with symbolic widths: rejected iff an anchor is outside its chromosome, dropped iff unlisted (or tril under drop), otherwise "
             "assigned to the bins containing the anchors, mirrored with its sided fields, counted once.", "4/C05"),
     "C06": ("create_cooler(ordered=False) executed end to end on symbolic chunks with solver-chosen merge buffer and fan-in (one- and two-pass): output "
-            "== per-pixel sum of all records and schema-valid; merge_breakpoints decided at function level.", "4/C06"),
+            "== per-pixel sum of all records and schema-valid, also for chunks in arbitrary internal order with sorting requested (dicts and frames with "
+            "permuted labels) and float value columns; merge_breakpoints decided at function level.", "4/C06"),
     "C07": ("merge_coolers executed on k arbitrary valid inputs with symbolic buffer: exact per-pixel aggregate (sum/max), nothing missing or extra, "
-            "total preserved, schema-valid; overflow of the column type is an error; acceptance <=> equal bin tables and storage modes.", "4/C07"),
+            "total preserved, schema-valid, mixed input dtypes; a result outside the column type (any width/signedness pair) is an error, never a wrapped "
+            "number; acceptance <=> equal bin tables and storage modes.", "4/C07"),
     "C08": ("coarsen_cooler executed on arbitrary valid inputs (fixed and variable bins, factor and chunk size solver-chosen, batched map): new bin table "
-            "and per-block exact aggregates, totals, validity; composition by the div-lemma.", "4/C08"),
+            "and per-block exact aggregates, totals, validity; block sums near the type limit are exact or refused; float counts keep their type with no / "
+            "partial dtypes; composition by the div-lemma.", "4/C08"),
     "C09": ("get_multiplier_sequence decided on symbolic resolution sets; zoomify_cooler executed end to end with one or two symbolic bases: layout, "
             "recognition, every level equals direct coarsening of a base, bases are faithful copies, non-derivable sets refused.", "4/C09"),
     "C10": ("Decided part only: in a converged run of the real balance_cooler (genome-wide, cis, trans; <=2 sweeps) the NaN bins are exactly the union of the "
-            "documented filters min_nnz/min_count/ignore_diags/blacklist (or a whole scope without data) and every other bin has a finite positive weight, "
-            "for symbolic thresholds and solver-enumerated small pixel tables. NOT claimed: MAD-max filter, flatness after iterating from an arbitrary "
-            "start (floating-point loop), see DESIGN 4/C10 and 5.", "4/C10"),
+            "documented filters min_nnz/min_count/ignore_diags/blacklist/MAD-max (or a whole scope without data) and every other bin has a finite positive "
+            "weight, for symbolic thresholds and solver-enumerated small pixel tables (MAD-max: log/exp/median evaluated on the enumerated data, bins on the "
+            "cut-off or with zero marginal not asserted). NOT claimed: flatness after iterating from an arbitrary start (floating-point loop), see DESIGN "
+            "4/C10 and 5.", "4/C10"),
     "C11": ("balance_cooler run twice symbolically (single span + builtin map vs solver-chosen chunk size + arbitrarily permuting map): weights and stats "
             "equal up to 1e-9, spans tile the pixel table, every pixel visited once, repeated run identical; one sweep equals the dense "
             "iterative-correction step.", "4/C11"),
     "C12": ("Cooler.matrix(balance=...) dense/sparse/pixel output on symbolic pixels, windows and weight columns (exact reals + NaN flag): value == raw * "
-            "f(w[row]) * f(w[col]) with f = id or reciprocal (default for KR/VC/VC_SQRT names), NaN iff either weight is NaN; missing column => ValueError.", "4/C12"),
+            "f(w[row]) * f(w[col]) with f = id or reciprocal (default for KR/VC/VC_SQRT names), NaN iff either weight is NaN (pixel output with and without "
+            "the pixel ids as labels); missing column => ValueError; dump -b agrees.", "4/C12"),
     "C13": ("ordered and unordered creation from free (unconstrained) symbolic records or with an iterator failure before a solver-chosen chunk: error <=> "
             "some chunk is invalid; afterwards the destination (new file / new group / existing non-cooler group / nested group) is not recognised and not "
-            "listed, and a neighbouring collection with symbolic contents plus the file attributes are bit-identical in the raw store.", "4/C13"),
+            "listed, and a neighbouring collection with symbolic contents plus the file attributes are bit-identical in the raw store; coarsen/merge reading a "
+            "symmetric-upper source that holds lower-triangle records fail or give a valid result, never an invalid one.", "4/C13"),
     "C14": ("chroms()/bins()/pixels() selectors sliced with symbolic bounds and column subsets, and annotate() on arbitrary pixel subsets against whole / "
-            "selector / partial bin tables (both strategy branches, enum and integer chromosome ids), on coolers with symbolic table contents.", "4/C14"),
+            "selector / partial bin tables (both strategy branches, enum and integer chromosome ids, explicit labels and iloc-derived range labels), single "
+            "column by name on enum- and integer-encoded files, on coolers with symbolic table contents.", "4/C14"),
     "C15": ("all sequences of 2 (thorough: 3) operations out of create(a/w)/cp/mv/ln hard/soft/external/overwrite over two files are executed on the "
             "in-memory HDF5 model with symbolic contents against a reference namespace model; every explored path is replayed on real h5py.", "4/C15"),
     "C16": ("Decided parts: cooler dump's function body with solver-chosen flags/regions/chunk size on symbolic pixels (rows == the records the options "
-            "describe, --columns honoured); cload pairs / load run to the parser call with symbolic field numbers (every name bound to the requested column "
+            "describe, --columns honoured); dump -> load round trip (COO and bedGraph-2D, zero/one-based, symbolic chunk sizes, BED bins, digit names) under the "
+            "to_csv/read_csv identity stub with the real text path run on every explored path; cload pairs / load run to the parser call with symbolic field numbers (every name bound to the requested column "
             "under the documented read_csv contract) and every explored layout replayed end to end through the real command; zoomify -r spec expansion "
             "with a symbolic genome length. NOT decided: CSV rendering/parsing, gzip, number formatting.", "4/C16"),
     "C17": ("create_scool with 1-3 cells and symbolic per-cell tables / per-cell bin columns: each cell reads back its own table, bins columns are the "
@@ -58,7 +67,7 @@ CLAIMED = {
     "C20": ("binnify is decided for symbolic chromosome lengths (width concrete per case), get_binsize/get_chromsizes for every valid bin table of each "
             "layout with symbolic widths: a reported size implies every bin has the fixed form.", "4/C20"),
     "C03": ("For every stored matrix with n<=3 bins / K<=2 pixels (thorough n<=4,K<=3), every window, both storage modes, dense and sparse output "
-            "and every chunk size, the real api.matrix / CSRReader / FillLowerRangeQuery2D source returns the slice of the full matrix; the window "
+            "and pixel-table output (with/without pixel ids) and every chunk size, the real api.matrix / CSRReader / FillLowerRangeQuery2D source returns the slice of the full matrix; the window "
             "planner is decided for unbounded coordinates; slice spellings are decided against Python's slice resolution for unbounded bounds.", "4/C03"),
 }
 
